@@ -5,7 +5,7 @@ CONSTANTS
   Denoms = {1, 2}
   Funds <- FundsSmall
   Amounts = {0, 1, 2}
-  Months = {0, 1}
+  Months = {1}
   SaleMonths = 2
   Unit = 1
   MonthTicks = 4
